@@ -831,7 +831,77 @@ def job_session(job):
     return {"id": job["id"], "actions": out}
 
 
-JOBS = {"session": job_session, "accepts": job_accepts, "analyze": job_analyze, "linrec": job_linrec, "explattice": job_explattice, "simulate": job_simulate}
+def job_invariants(job):
+    """invariant ideal basis for (a) a program and a list of goals (as the CLI's --invariants does) or
+    (b) a tuple of closed forms given directly; basis polynomials are returned term by term"""
+    from invariants import InvariantIdeal
+    from utils import get_max_case_in_piecewise
+    res = {"id": job["id"], "kind": "invariants"}
+    apply_settings(job.get("settings"))
+    if "text" in job:
+        from inputparser import parse_program, GoalParser, MOMENT, CUMULANT, CENTRAL
+        from inputparser import Parser
+        from program import normalize_program
+        from recurrences import RecBuilder
+        from cli.actions.goals_action import GoalsAction
+        try:
+            program = normalize_program(Parser().parse_string(job["text"]))
+            ga = GoalsAction(Namespace(solvability_check=False, at_n=-1, after_loop=False, invariants=True,
+                                       goals=list(job["goals"]), tail_bound_moments=2))
+            ga.initialize_program(program, RecBuilder(program))
+            closed_forms = {}
+            kinds = {}
+            for goal_type, goal_data in ga.parse_goals():
+                if goal_type == MOMENT:
+                    m, _ = ga.handle_moment_goal(goal_data)
+                    gid = f"E({goal_data[0]})" if program.is_probabilistic else str(goal_data[0])
+                    kinds[gid] = ["mom", str(goal_data[0]), 0]
+                elif goal_type == CUMULANT:
+                    m, _ = ga.handle_cumulant_goal(goal_data)
+                    gid = f"k{goal_data[0]}({goal_data[1]})"
+                    kinds[gid] = ["cumulant", str(goal_data[1]), int(goal_data[0])]
+                elif goal_type == CENTRAL:
+                    m, _ = ga.handle_central_moment_goal(goal_data)
+                    gid = f"c{goal_data[0]}({goal_data[1]})"
+                    kinds[gid] = ["central", str(goal_data[1]), int(goal_data[0])]
+                else:
+                    continue
+                closed_forms[gid] = m
+            res["is_probabilistic"] = bool(program.is_probabilistic)
+        except JobTimeout:
+            raise
+        except Exception as ex:
+            res.update(stage="analysis", exc=type(ex).__name__, msg=str(ex)[:300])
+            return res
+    else:
+        closed_forms = {k: sympy.sympify(v, locals={"n": sympy.Symbol("n", integer=True)}) for k, v in job["closed_forms"].items()}
+        kinds = {}
+    res["goal_ids"] = list(closed_forms)
+    res["kinds"] = kinds
+    res["closed_forms"] = {k: str(v)[:1000] for k, v in closed_forms.items()}
+    res["K"] = max([get_max_case_in_piecewise(v) for v in closed_forms.values()] + [-1])
+    N = job.get("N", 8)
+    res["values"] = {k: [eval_closed_form(v, {}, n) for n in range(N + 1)] for k, v in closed_forms.items()}
+    try:
+        basis = InvariantIdeal(closed_forms).compute_basis()
+    except JobTimeout:
+        raise
+    except Exception as ex:
+        res.update(stage="ideal", exc=type(ex).__name__, msg=str(ex)[:300])
+        return res
+    syms = [sympy.Symbol(g) for g in res["goal_ids"]]
+    out = []
+    for b in basis:
+        try:
+            P = sympy.Poly(sympy.expand(b), *syms)
+            out.append({"text": str(b)[:500], "terms": [[frac_str(c), [int(e) for e in mono]] for mono, c in P.terms()]})
+        except Exception as ex:
+            out.append({"text": str(b)[:500], "unsupported": f"{type(ex).__name__}: {ex}"[:200]})
+    res["basis"] = out
+    return res
+
+
+JOBS = {"invariants": job_invariants, "session": job_session, "accepts": job_accepts, "analyze": job_analyze, "linrec": job_linrec, "explattice": job_explattice, "simulate": job_simulate}
 
 
 def handle(job):
